@@ -1143,6 +1143,25 @@ IDSET_DELEGATIONS = [
 ]
 
 
+READ_DELEGATIONS = [
+    ("yrs::types::xml::Xml::siblings", r"xml::Siblings::new$", {0: "AsRef::as_ref(self).item", 1: "txn"}, None),
+    ("yrs::types::xml::XmlFragment::children", r"xml::XmlNodes::new$", {0: "BlockIter::new(AsRef::as_ref(self))", 1: "txn"}, None),
+    ("yrs::types::xml::XmlFragment::successors", r"xml::TreeWalker::new$", {0: "AsRef::as_ref(self)", 1: "txn"}, None),
+    ("yrs::types::xml::XmlFragment::first_child", r"Branch::first$", {0: "AsRef::as_ref(self)"}, None),
+    ("yrs::types::xml::XmlElementRef::tag", r"XmlElementRef::try_tag$", {0: "self"}, None),
+    ("yrs::types::map::Map::iter", r"map::MapIter::new$", {0: "AsRef::as_ref(self)", 1: "txn"}, None),
+    ("yrs::types::map::Map::keys", r"map::Keys::new$", {0: "AsRef::as_ref(self)", 1: "txn"}, None),
+    ("yrs::types::map::Map::values", r"map::Values::new$", {0: "AsRef::as_ref(self)", 1: "txn"}, None),
+    ("yrs::transaction::TransactionMut::has_deleted", r"IdSet::contains$", {0: "self.delete_set", 1: "id"}, None),
+    ("yrs::state_vector::StateVector::contains", r"StateVector::get$", {0: "self", 1: "id.client"}, None),
+]
+
+WEAK_DELEGATIONS = [
+    ("<yrs::types::weak::WeakRef<yrs::types::text::TextRef> as yrs::types::GetString>::get_string", r"LinkSource::to_string$", {0: "WeakRef::source(self)", 1: "txn"}, None),
+    ("<yrs::types::weak::WeakRef<yrs::types::xml::XmlTextRef> as yrs::types::GetString>::get_string", r"LinkSource::to_xml_string$", {0: "WeakRef::source(self)", 1: "txn"}, None),
+]
+
+
 def api_delegations(R, ctx, rid, table=None, what=None):
     """R-PROV the public methods of the shared types hand their own arguments on."""
     from .accessors import _canon
